@@ -31,7 +31,7 @@ def run_c15(ctx):
     p_tree.deep_chain(ctx, exe, 160 if q else 400, props)
     # clear on containers of 10^5 - 10^6 elements (exactly once each, nothing touched afterwards, empty and reusable)
     from . import p_big
-    p_big.big_phase(ctx, ["rb:100000", "bst:3000", "map:400000"] if q else ["rb:400000", "bst:6000", "map:1500000"])
+    p_big.big_phase(ctx, ["rb:100000", "bst:20000", "map:400000"] if q else ["rb:400000", "bst:40000", "map:1500000"])
     ctx.assumptions += [
         "the clear callback scribbles 0xA5 over the element's links (trees, heap, lists) - a later read of them by the library faults or corrupts the logged state; map nodes are freed by the library itself and checked through the allocator interposer (freed blocks are poisoned and must stay untouched)",
         "'usable like a fresh container' is decided by the post-state being the canonical initial state, from which the closure continues",
